@@ -32,12 +32,10 @@ theorem runInv (env : Env) : RunInv env (fun s => inv02 s = true) where
   tick s h := by
     rw [inv02_iff] at h ⊢
     exact Inv02On_congr rfl rfl h
-  arrival _ hi _ _ _ h := by
+  arrival _ hi hf _ _ h := by
     rw [inv02_iff] at hi ⊢
-    unfold Sim.addRequest at h
-    split at h
-    · cases h
-    · cases h; exact Inv02On_congr rfl rfl hi
+    rw [addRequest_fresh hf h]
+    exact Inv02On_congr rfl rfl hi
   cancel _ hi h := by
     rw [inv02_iff] at hi ⊢
     obtain ⟨_, _, hs, hb, hv, _, _⟩ := Sim.removeRequest_fields h
